@@ -403,7 +403,17 @@ impl C02 {
 
 const EDGE_UNITS: [&str; 3] = ["m", "s", "kg"];
 /// (text, exact exponent)
-const EDGE_POWERS: [(&str, i128); 9] = [
+const EDGE_POWERS: [(&str, i128); 18] = [
+    // a single exponent at the ends of i32/u32 (the evaluator narrows the exponent to an i32)
+    ("({u}^2147483647)", 2147483647),
+    ("({u}^2147483648)", 2147483648),
+    ("({u}^2147483649)", 2147483649),
+    ("({u}^-2147483647)", -2147483647),
+    ("({u}^-2147483648)", -2147483648),
+    ("({u}^-2147483649)", -2147483649),
+    ("({u}^4294967295)", 4294967295),
+    ("({u}^4294967296)", 4294967296),
+    ("({u}^4294967297)", 4294967297),
     ("(({u}^2147483647)^1073741824)", 2147483647 * 1073741824),
     ("(({u}^-2147483647)^1073741824)", -2147483647 * 1073741824),
     ("(({u}^2147483647)^1073741823)", 2147483647 * 1073741823),
@@ -456,7 +466,7 @@ impl Space for C02 {
         Meta {
             id: "C02",
             level: "exploration",
-            rule: "10 binary operators/functions (* / juxtaposition | + - mod hypot atan2 unit-list) x 6 coefficient pairs (a zero coefficient on either or both sides: adding nothing is still an addition) x all ordered pairs of one representative unit per distinct dimensionality of the registry (+ two quoted ad-hoc base units + a dimensionless operand); 27 unary/power/root/function applications x {1, -2} coefficient x every unit, base unit and long/prefixed/plural base-unit spelling; both depth-2 shapes x 5x5 operators over an 11-unit core; 6 trigonometric functions x 9 power/reciprocal/product forms (x^-3..x^3, x*x, 1/x, x x x) of every representative unit (an angle squared is not an angle); unit lists of 3 and 4 members with one member of another dimensionality at every position, over all ordered pairs of representatives; 3 base units x 9 exponents of magnitude 2^61..2^63 built by nested powers x 18 product/quotient/power/negation forms, where the exact exponent is computed in 128-bit arithmetic (a refusal is accepted, another exponent or a missing unit is not, and a result beyond i64 must be refused). Oracle: own exponent-vector algebra on the registry dump. Non-trivial = judged (expected dims or expected refusal defined); distinct by query text".into(),
+            rule: "10 binary operators/functions (* / juxtaposition | + - mod hypot atan2 unit-list) x 6 coefficient pairs (a zero coefficient on either or both sides: adding nothing is still an addition) x all ordered pairs of one representative unit per distinct dimensionality of the registry (+ two quoted ad-hoc base units + a dimensionless operand); 27 unary/power/root/function applications x {1, -2} coefficient x every unit, base unit and long/prefixed/plural base-unit spelling; both depth-2 shapes x 5x5 operators over an 11-unit core; 6 trigonometric functions x 9 power/reciprocal/product forms (x^-3..x^3, x*x, 1/x, x x x) of every representative unit (an angle squared is not an angle); unit lists of 3 and 4 members with one member of another dimensionality at every position, over all ordered pairs of representatives; 3 base units x 18 exponents (single exponents at +-2^31 and 2^32 and their neighbours; magnitudes 2^61..2^63 built by nested powers) x 18 product/quotient/power/negation forms, where the exact exponent is computed in 128-bit arithmetic (a refusal is accepted, another exponent or a missing unit is not, and a result beyond i64 must be refused). Oracle: own exponent-vector algebra on the registry dump. Non-trivial = judged (expected dims or expected refusal defined); distinct by query text".into(),
             assumptions: vec![
                 "the registry dump (C08 validates it) gives each unit's dimensionality".into(),
                 "exp/ln/log/hyperbolic functions of dimensioned arguments and p/q powers with p != 1 are recorded, not judged (the statement gives no rule)".into(),
